@@ -145,4 +145,674 @@ Section Inv.
         * apply Hcov; auto; subst hi; lia.
       + rewrite M3 by lia. apply Hlow. exact Hlt.
   Qed.
+
+  (* ---------------------------------------------------------- monotonicity *)
+  Lemma pendupto_ext : forall b b' m F cb, same_epoch_ext b b' -> F <= top b ->
+    PendUpTo b m F cb -> PendUpTo b' m F cb.
+  Proof.
+    intros b b' m F cb E HF HP k. destruct (HP k) as [HI HV]. split; [exact HI|].
+    intros Hv. destruct (HV Hv) as [A B]. split; [|exact B].
+    intros Hk. destruct (A Hk) as [A1|[o [Ho Hk']]].
+    - left. rewrite A1. unfold vof. rewrite (ext_state_at _ _ _ E HF). reflexivity.
+    - right. exists o. pose proof (ext_top _ _ E). split; [lia|]. rewrite (ext_chg _ _ _ E); [exact Hk'|lia].
+  Qed.
+
+  Definition wok (w : wop) : Prop :=
+    match w with WPub k _ => k < K | WRem k => k < K | _ => True end.
+
+  Lemma keys_lt_apply_w : forall b w, keys_lt b -> wok w -> keys_lt (apply_w b w).
+  Proof.
+    intros b w HK Hw c Hc. destruct w as [k v|k| |]; cbn in *.
+    - apply in_app_or in Hc. destruct Hc as [Hc|[<-|[]]]; [apply HK; auto|exact Hw].
+    - destruct (state b k); cbn in Hc; [|apply HK; auto].
+      apply in_app_or in Hc. destruct Hc as [Hc|[<-|[]]]; [apply HK; auto|exact Hw].
+    - apply HK; auto.
+    - destruct Hc.
+  Qed.
+
+  Lemma keys_lt_apply_ws : forall ws b, keys_lt b -> Forall wok ws -> keys_lt (apply_ws b ws).
+  Proof.
+    induction ws as [|w t IH]; intros b HK HF; cbn; auto. inversion HF; subst.
+    apply IH; auto. apply keys_lt_apply_w; auto.
+  Qed.
+
+  (* ---------------------------------------------------------- the invariant *)
+  Definition Know (y : sys) : Prop :=
+    let b := y_b y in let c := y_c y in let l := y_l y in let s := y_s y in
+    WF b /\ keys_lt b /\ 1 <= c_limit c /\
+    (forall x, c_ep c = Some x -> x <= b_epoch b) /\
+    (forall k, vis k = false -> c_map c k = None) /\
+    (l_sub l = true -> c_phase c = CLive) /\
+    match c_phase c with
+    | CLive =>
+        l_sub l = true /\ c_ep c = Some (l_epoch l) /\
+        (l_epoch l = b_epoch b ->
+           c_off c <= l_pos l /\ l_pos l <= top b /\ Sync b (c_map c) (l_pos l) /\ Invis b (c_off c) (l_pos l))
+    | CTold EInsufficient =>
+        c_ep c <> None /\
+        (c_ep c = Some (b_epoch b) -> c_off c <= top b /\ Pend b (c_map c) (c_off c))
+    | CStreaming =>
+        c_ep c <> None /\
+        (c_ep c = Some (b_epoch b) -> c_off c <= top b /\ Pend b (c_map c) (c_off c))
+    | CStatePages cur =>
+        c_ep c <> None /\
+        (s_has s = true -> s_cap s = true /\ s_off s = c_off c /\ s_epoch s = c_ep c /\
+         (c_ep c = Some (b_epoch b) -> c_off c <= top b /\ PendUpTo b (c_map c) (c_off c) (S cur)))
+    | _ => True
+    end.
+
+  Definition evok (ev : sev) : Prop :=
+    match ev with
+    | EvW w => wok w
+    | EvReq g0 g1 g2 => Forall wok g0 /\ Forall wok g1 /\ Forall wok g2
+    | _ => True
+    end.
+
+  Definition quiescent (y : sys) : Prop :=
+    l_sub (y_l y) = true /\ check_position (y_b y) (y_l y) = true.
+
+  (* convergence from the invariant *)
+  Lemma know_converged : forall y, Know y -> quiescent y ->
+    forall k, c_map (y_c y) k = if vis k then vof (state (y_b y)) k else None.
+  Proof.
+    intros y HK [Hl Hc] k. destruct HK as [_ [_ [_ [_ [_ [Hlive Hph]]]]]].
+    rewrite (Hlive Hl) in Hph. destruct Hph as [_ [_ Hs]].
+    unfold check_position in Hc. apply andb_prop in Hc. destruct Hc as [He Hp].
+    apply Nat.eqb_eq in He, Hp. destruct (Hs He) as [_ [_ [HS _]]].
+    rewrite (HS k). rewrite Hp. reflexivity.
+  Qed.
+
+
+  Notation step := (step true K vis tlimit).
+
+  Lemma skipn_snoc : forall (A : Type) (l : list A) c, skipn (length l) (l ++ [c]) = [c].
+  Proof. intros A l c. induction l; cbn; auto. Qed.
+
+  (* what a writer op broadcasts *)
+  Lemma pubs_between_apply_w : forall b w,
+    pubs_between b (apply_w b w) = [] \/
+    (b_epoch (apply_w b w) = b_epoch b /\ top (apply_w b w) = S (top b) /\
+     pubs_between b (apply_w b w) = [(S (top b), chg (apply_w b w) (S (top b)))]).
+  Proof.
+    intros b w.
+    assert (G : forall c, let b' := mkB (b_epoch b) (b_log b ++ [c]) (trim_lo b (length (b_log b ++ [c]))) (b_size b) in
+                pubs_between b b' = [(S (top b), chg b' (S (top b)))]).
+    { intros c b'. unfold pubs_between, b'. cbn [b_epoch b_log]. rewrite Nat.eqb_refl. unfold top. cbn [b_log].
+      rewrite app_length. cbn [length]. replace (length (b_log b) + 1 - length (b_log b)) with 1 by lia.
+      rewrite skipn_snoc. cbn [seq combine]. unfold chg. cbn [b_log].
+      replace (S (length (b_log b)) - 1) with (length (b_log b)) by lia.
+      rewrite app_nth2 by lia. rewrite Nat.sub_diag. reflexivity. }
+    destruct w as [k v|k| |]; cbn [apply_w].
+    - right. split; [reflexivity|]. split; [unfold top; cbn; rewrite app_length; cbn; lia|apply G].
+    - destruct (state b k).
+      + right. split; [reflexivity|]. split; [unfold top; cbn; rewrite app_length; cbn; lia|apply G].
+      + left. unfold pubs_between. rewrite Nat.eqb_refl, Nat.sub_diag. reflexivity.
+    - left. unfold pubs_between. cbn. rewrite Nat.eqb_refl. unfold top; cbn. rewrite Nat.sub_diag. reflexivity.
+    - left. unfold pubs_between. cbn [b_epoch]. destruct (Nat.eqb (b_epoch b) (S (b_epoch b))) eqn:E; [|reflexivity].
+      apply Nat.eqb_eq in E. lia.
+  Qed.
+
+  Lemma know_step_w : forall y w, Know y -> wok w -> Know (step y (EvW w)).
+  Proof.
+    intros y w HK Hw. destruct y as [b s l c].
+    destruct HK as [HWF [HKL [Hlim [Hep [Hcm [Hlive Hph]]]]]]. cbn [y_b y_c y_l y_s] in *.
+    set (b' := apply_w b w).
+    assert (WF' : WF b') by (apply WF_apply_w; auto).
+    assert (KL' : keys_lt b') by (apply keys_lt_apply_w; auto).
+    assert (Emono : b_epoch b <= b_epoch b') by apply apply_w_epoch_mono.
+    assert (Hep' : forall x, c_ep c = Some x -> x <= b_epoch b') by (intros x Hx; specialize (Hep x Hx); lia).
+    assert (Hext : b_epoch b' = b_epoch b -> same_epoch_ext b b') by (apply apply_w_ext).
+    (* the subscription-independent part when the client is untouched *)
+    assert (Hstay : l_sub l = false -> Know (mkSys b' s l c)).
+    { intros Hl. unfold Know; cbn [y_b y_c y_l y_s].
+      split; [exact WF'|]. split; [exact KL'|]. split; [exact Hlim|]. split; [exact Hep'|]. split; [exact Hcm|].
+      split; [intros A; congruence|].
+      destruct (c_phase c) as [|cur| | |e] eqn:Eph.
+      - exact I.
+      - destruct Hph as [Hne Hph]. split; [exact Hne|].
+        intros Hs. destruct (Hph Hs) as [A1 [A2 [A3 A4]]]. split; [exact A1|]. split; [exact A2|]. split; [exact A3|].
+        intros Hce. assert (Ee : b_epoch b' = b_epoch b) by (specialize (Hep _ Hce); lia).
+        rewrite Ee in Hce. destruct (A4 Hce) as [B1 B2]. pose proof (ext_top _ _ (Hext Ee)).
+        split; [lia|]. eapply pendupto_ext; eauto.
+      - destruct Hph as [Hne Hph]. split; [exact Hne|].
+        intros Hce. assert (Ee : b_epoch b' = b_epoch b) by (specialize (Hep _ Hce); lia).
+        rewrite Ee in Hce. destruct (Hph Hce) as [B1 B2]. pose proof (ext_top _ _ (Hext Ee)).
+        split; [lia|]. eapply pend_ext; eauto.
+      - destruct Hph as [A _]. congruence.
+      - destruct e; auto. destruct Hph as [Hne Hph]. split; [exact Hne|].
+        intros Hce. assert (Ee : b_epoch b' = b_epoch b) by (specialize (Hep _ Hce); lia).
+        rewrite Ee in Hce. destruct (Hph Hce) as [B1 B2]. pose proof (ext_top _ _ (Hext Ee)).
+        split; [lia|]. eapply pend_ext; eauto. }
+    unfold MapSub.step, step_out. cbn [y_b y_c y_l y_s fst]. fold b'.
+    destruct (l_sub l) eqn:El; [|cbn [fst]; apply Hstay; reflexivity].
+    (* live subscription *)
+    pose proof (Hlive eq_refl) as Eph. rewrite Eph in Hph. destruct Hph as [_ [Hcep Hs]].
+    assert (Hle : l_epoch l <= b_epoch b) by (apply Hep; exact Hcep).
+    (* nothing broadcast: clear / stream expiry / suppressed removal *)
+    assert (Hquiet : pubs_between b b' = [] -> Know (mkSys b' s l c)).
+    { intros _. unfold Know; cbn [y_b y_c y_l y_s].
+      split; [exact WF'|]. split; [exact KL'|]. split; [exact Hlim|]. split; [exact Hep'|]. split; [exact Hcm|].
+      split; [intros _; exact Eph|]. rewrite Eph. split; [exact El|]. split; [exact Hcep|].
+      intros He. assert (Ee : b_epoch b' = b_epoch b) by lia. rewrite Ee in He.
+      destruct (Hs He) as [B1 [B2 [B3 B4]]]. pose proof (Hext Ee) as X. pose proof (ext_top _ _ X).
+      split; [exact B1|]. split; [lia|]. split; [eapply sync_ext; eauto|].
+      intros o Ho. rewrite (ext_chg _ _ _ X) by lia. apply B4. exact Ho. }
+    assert (Hdeliver : forall r, deliver vis l c (b_epoch b') (pubs_between b b') = r ->
+              Know (mkSys b' s (fst (fst (fst r))) (snd (fst (fst r))))).
+    { intros r Hr. destruct (pubs_between_apply_w b w) as [Hnil|[Ee [Ht Hone]]]; fold b' in Hnil || fold b' in Ee, Ht, Hone.
+      - rewrite Hnil in Hr. cbn in Hr. subst r. cbn. apply Hquiet. exact Hnil.
+      - rewrite Hone in Hr. cbn [deliver] in Hr. unfold push in Hr. rewrite El in Hr. cbn [negb] in Hr.
+        pose proof (Hext Ee) as X.
+        destruct (Nat.eqb (b_epoch b') (l_epoch l)) eqn:Eep; cbn [negb] in Hr.
+        2:{ (* another epoch: insufficient state *)
+            subst r. cbn. apply Nat.eqb_neq in Eep.
+            unfold Know; cbn [y_b y_c y_l y_s on_unsub c_phase c_ep c_off c_map c_limit l_sub].
+            split; [exact WF'|]. split; [exact KL'|]. split; [exact Hlim|]. split; [exact Hep'|]. split; [exact Hcm|].
+            split; [intros A; discriminate|]. split; [congruence|]. intros Hce. rewrite Hcep in Hce. inversion Hce. congruence. }
+        apply Nat.eqb_eq in Eep. assert (Hle2 : l_epoch l = b_epoch b) by congruence.
+        destruct (Hs Hle2) as [B1 [B2 [B3 B4]]].
+        cbn [fst] in Hr.
+        destruct (Nat.ltb (S (l_pos l)) (S (top b))) eqn:Egap.
+        { (* offset gap: insufficient state; the client recovers later from its position *)
+          subst r. cbn.
+          unfold Know; cbn [y_b y_c y_l y_s on_unsub c_phase c_ep c_off c_map c_limit l_sub].
+          split; [exact WF'|]. split; [exact KL'|]. split; [exact Hlim|]. split; [exact Hep'|]. split; [exact Hcm|].
+          split; [intros A; discriminate|]. split; [congruence|]. intros _. pose proof (ext_top _ _ X).
+          split; [lia|]. eapply pend_ext; eauto; [lia|]. eapply sync_pend; eauto. }
+        apply Nat.ltb_ge in Egap.
+        destruct (Nat.ltb (S (top b)) (S (l_pos l))) eqn:Est; [apply Nat.ltb_lt in Est; lia|].
+        assert (Hpos : l_pos l = top b) by lia.
+        pose proof (nth_chg vis b' (S (top b)) ltac:(lia)) as Hn. replace (S (top b) - 1) with (top b) in Hn by lia.
+        assert (HS' : forall k, state_at b' (S (top b)) k = upd (state_at b (top b)) (S (top b)) (chg b' (S (top b))) k).
+        { intros k. rewrite (state_at_S b' (top b) _ Hn). unfold upd.
+          destruct (Nat.eqb k (ck (chg b' (S (top b))))); auto. apply (ext_state_at _ _ _ X). lia. }
+        cbn [snd] in Hr.
+        destruct (vis (ck (chg b' (S (top b))))) eqn:Ev.
+        + subst r. cbn.
+          unfold Know; cbn [y_b y_c y_l y_s on_push c_phase c_ep c_off c_map c_limit l_sub l_pos l_epoch fst snd].
+          split; [exact WF'|]. split; [exact KL'|]. split; [exact Hlim|]. split; [exact Hep'|].
+          split.
+          { intros k Hk. unfold cset. destruct (Nat.eqb k (ck (chg b' (S (top b))))) eqn:E; [|apply Hcm; auto].
+            apply Nat.eqb_eq in E. congruence. }
+          split; [intros _; exact Eph|]. rewrite Eph. split; [reflexivity|]. split; [exact Hcep|].
+          intros _. split; [lia|]. split; [lia|]. split.
+          * intros k. unfold cset. destruct (Nat.eqb k (ck (chg b' (S (top b))))) eqn:E.
+            -- apply Nat.eqb_eq in E. subst k. rewrite Ev. unfold vof. rewrite HS'. unfold upd. rewrite Nat.eqb_refl.
+               destruct (cv (chg b' (S (top b)))); reflexivity.
+            -- rewrite (B3 k). destruct (vis k); auto. unfold vof. rewrite HS'. unfold upd. rewrite E.
+               rewrite Hpos. reflexivity.
+          * intros o Ho. lia.
+        + subst r. cbn.
+          unfold Know; cbn [y_b y_c y_l y_s c_phase c_ep c_off c_map c_limit l_sub l_pos l_epoch fst snd].
+          split; [exact WF'|]. split; [exact KL'|]. split; [exact Hlim|]. split; [exact Hep'|]. split; [exact Hcm|].
+          split; [intros _; exact Eph|]. rewrite Eph. split; [reflexivity|]. split; [exact Hcep|].
+          intros _. split; [lia|]. split; [lia|]. split.
+          * intros k. rewrite (B3 k). destruct (vis k) eqn:Evk; auto. unfold vof. rewrite HS'. unfold upd.
+            destruct (Nat.eqb k (ck (chg b' (S (top b))))) eqn:E; [apply Nat.eqb_eq in E; congruence|].
+            rewrite Hpos. reflexivity.
+          * intros o Ho. destruct (Nat.eq_dec o (S (top b))) as [->|Hne]; [exact Ev|].
+            rewrite (ext_chg _ _ _ X) by lia. apply B4. lia. }
+    destruct w as [k v|k| |].
+    - destruct (deliver vis l c (b_epoch b') (pubs_between b b')) as [[[l' c'] ds] u] eqn:Ed.
+      cbn [fst]. exact (Hdeliver _ eq_refl).
+    - destruct (deliver vis l c (b_epoch b') (pubs_between b b')) as [[[l' c'] ds] u] eqn:Ed.
+      cbn [fst]. exact (Hdeliver _ eq_refl).
+    - cbn [fst]. apply Hquiet. destruct (pubs_between_apply_w b WExpireStream) as [A|[_ [A _]]]; [exact A|].
+      unfold top in A; cbn in A. lia.
+    - cbn [fst]. apply Hquiet. destruct (pubs_between_apply_w b WClear) as [A|[A _]]; [exact A|]. cbn in A. lia.
+  Qed.
+
+
+  (* ---------------------------------------------------------- unsubscribe / drop *)
+  Lemma know_unsub : forall b s s' l c,
+    Know (mkSys b s l c) -> l_sub l = true -> Know (mkSys b s' (mkL false 0 0) (on_unsub c)).
+  Proof.
+    intros b s s' l c HK Hl. destruct HK as [HWF [HKL [Hlim [Hep [Hcm [Hlive Hph]]]]]]. cbn [y_b y_c y_l y_s] in *.
+    pose proof (Hlive Hl) as Eph. rewrite Eph in Hph. destruct Hph as [_ [Hcep Hs]].
+    unfold Know; cbn [y_b y_c y_l y_s on_unsub c_phase c_ep c_off c_map c_limit l_sub].
+    split; [exact HWF|]. split; [exact HKL|]. split; [exact Hlim|]. split; [exact Hep|]. split; [exact Hcm|].
+    split; [intros A; discriminate|]. split; [congruence|].
+    intros Hce. rewrite Hcep in Hce. inversion Hce as [He]. destruct (Hs He) as [B1 [B2 [B3 B4]]].
+    split; [lia|]. eapply sync_pend; eauto.
+  Qed.
+
+  (* ---------------------------------------------------------- after a live transition *)
+  Lemma apply_pubs_invis : forall l m k, vis k = false -> apply_pubs m (vis_pubs l) k = m k.
+  Proof.
+    induction l as [|p t IH]; intros m k Hk; [reflexivity|]. cbn [MapSub.vis_pubs filter].
+    destruct (vis (ck (snd p))) eqn:E; [|apply IH; auto].
+    cbn [apply_pubs fold_left]. change (apply_pubs (cset m (ck (snd p)) (cv (snd p))) (vis_pubs t) k = m k).
+    rewrite IH by auto. unfold cset. destruct (Nat.eqb k (ck (snd p))) eqn:E2; auto.
+    apply Nat.eqb_eq in E2. congruence.
+  Qed.
+
+  Lemma apply_entries_invis : forall l m k, vis k = false -> apply_entries m (vis_entries l) k = m k.
+  Proof.
+    intros l m k Hk. apply apply_entries_other. intros e He Hke.
+    unfold MapSub.vis_entries in He. apply filter_In in He. destruct He as [_ He].
+    unfold ekey in Hke. rewrite Hke in He. congruence.
+  Qed.
+
+  Notation transition := (transition true vis tlimit).
+
+  Lemma live_know : forall bt since x isrec rf entries g1 g2 b' s' l' pubs latest mE lim recs,
+    WF bt -> keys_lt bt -> Forall wok g1 -> Forall wok g2 -> 1 <= lim -> x <= b_epoch bt ->
+    (x = b_epoch bt -> since <= top bt /\ Pend bt mE since) ->
+    (forall k, vis k = false -> mE k = None) ->
+    transition bt since (Some x) isrec rf entries g1 g2 = (b', s', l', PLive entries pubs latest x rf) ->
+    Know (mkSys b' s' l' (mkCl (apply_pubs mE pubs) CLive latest (Some x) lim recs)) /\
+    (x = b_epoch b' -> latest = top b' /\ pubs = vis_pubs (changes b' since (top b'))).
+  Proof.
+    intros bt since x isrec rf entries g1 g2 b' s' l' pubs latest mE lim recs HWF HKL Hg1 Hg2 Hlim Hx HP Hinv H.
+    destruct (transition_spec vis tlimit bt since x isrec rf entries g1 g2 b' s' l' _ HWF
+                ltac:(intros E; apply HP; exact E) H) as [Hb' [Hs' [[er [Her _]]|[pubs' [latest' [Hrep [[l0 Hl0] [Hl' [Hx1 Hsame]]]]]]]]];
+      [discriminate|].
+    assert (Hpp : pubs' = pubs /\ latest' = latest) by (inversion Hrep; auto). destruct Hpp as [Hp1 Hp2]. clear Hrep.
+    rewrite Hp1 in Hl0, Hsame. rewrite Hp2 in Hl', Hsame. clear Hp1 Hp2.
+    set (b1 := apply_ws bt g1) in *.
+    assert (M1 : b_epoch bt <= b_epoch b1) by apply apply_ws_epoch_mono.
+    assert (M2 : b_epoch b1 <= b_epoch b') by (rewrite Hb'; apply apply_ws_epoch_mono).
+    assert (Ebt : x = b_epoch bt) by lia.
+    destruct (HP Ebt) as [Hsince HPend].
+    assert (WF' : WF b') by (rewrite Hb'; apply WF_apply_ws; apply WF_apply_ws; auto).
+    assert (KL' : keys_lt b') by (rewrite Hb'; apply keys_lt_apply_ws; auto; apply keys_lt_apply_ws; auto).
+    assert (Hclaim : x = b_epoch b' -> latest = top b' /\ pubs = vis_pubs (changes b' since (top b'))).
+    { intros E. apply Hsame. lia. }
+    split; [|exact Hclaim].
+    unfold Know; cbn [y_b y_c y_l y_s c_phase c_ep c_off c_map c_limit].
+    split; [exact WF'|]. split; [exact KL'|]. split; [exact Hlim|].
+    split; [intros x0 Hx0; inversion Hx0; subst; lia|].
+    split; [intros k Hk; rewrite Hl0, apply_pubs_invis by auto; apply Hinv; auto|].
+    rewrite Hl'. cbn [l_sub l_pos l_epoch].
+    split; [reflexivity|]. split; [reflexivity|]. split; [reflexivity|].
+    intros E. destruct (Hclaim E) as [Hlat Hpubs].
+    assert (Esame : b_epoch b' = b_epoch bt) by lia.
+    assert (X : same_epoch_ext bt b').
+    { rewrite Hb'. eapply same_epoch_ext_trans; [apply (apply_ws_ext g1 bt); fold b1; lia|].
+      apply apply_ws_ext. rewrite <- Hb'. fold b1. lia. }
+    pose proof (ext_top _ _ X) as T.
+    split; [lia|]. split; [lia|]. split.
+    - rewrite Hlat. apply pend_top. rewrite Hpubs. apply pend_apply'; [lia|lia|].
+      eapply pend_ext; eauto.
+    - intros o Ho. lia.
+  Qed.
+
+
+  (* ---------------------------------------------------------- broker extension by writer ops *)
+  Definition wext (b b' : broker) : Prop := exists ws, Forall wok ws /\ b' = apply_ws b ws.
+
+  Lemma wext_refl : forall b, wext b b.
+  Proof. intros b. exists []. split; [constructor|reflexivity]. Qed.
+
+  Lemma wext_ws : forall b ws, Forall wok ws -> wext b (apply_ws b ws).
+  Proof. intros b ws H. exists ws. auto. Qed.
+
+  Lemma wext_trans : forall a b c, wext a b -> wext b c -> wext a c.
+  Proof.
+    intros a b c [w1 [F1 E1]] [w2 [F2 E2]]. exists (w1 ++ w2). split; [apply Forall_app; auto|].
+    subst. unfold apply_ws. rewrite fold_left_app. reflexivity.
+  Qed.
+
+  Lemma wext_facts : forall b b', wext b b' -> WF b -> keys_lt b ->
+    WF b' /\ keys_lt b' /\ b_epoch b <= b_epoch b' /\ (b_epoch b' = b_epoch b -> same_epoch_ext b b').
+  Proof.
+    intros b b' [ws [F ->]] HW HK. split; [apply WF_apply_ws; auto|]. split; [apply keys_lt_apply_ws; auto|].
+    split; [apply apply_ws_epoch_mono|apply apply_ws_ext].
+  Qed.
+
+  (* an error reply: the client is told *)
+  Lemma know_err : forall b s l c b' s' l' e,
+    Know (mkSys b s l c) -> l_sub l = false -> wext b b' -> l_sub l' = false ->
+    Know (mkSys b' s' l' (on_reply c (PErr e))).
+  Proof.
+    intros b s l c b' s' l' e HK Hl HX Hl'. destruct HK as [HWF [HKL [Hlim [Hep [Hcm [Hlive Hph]]]]]]. cbn [y_b y_c y_l y_s] in *.
+    destruct (wext_facts _ _ HX HWF HKL) as [WF' [KL' [Emono Hext]]].
+    unfold Know; cbn [y_b y_c y_l y_s on_reply c_phase c_ep c_off c_map c_limit l_sub].
+    split; [exact WF'|]. split; [exact KL'|]. split; [exact Hlim|].
+    split; [intros x Hx; specialize (Hep x Hx); lia|]. split; [exact Hcm|]. split; [intros A; congruence|].
+    destruct e; auto. destruct (c_phase c) as [| | | |e0] eqn:Eph; auto. destruct e0; auto.
+    destruct Hph as [Hne Hp]. split; [exact Hne|]. intros Hce.
+    assert (Ee : b_epoch b' = b_epoch b) by (specialize (Hep _ Hce); lia).
+    rewrite Ee in Hce. destruct (Hp Hce) as [B1 B2]. pose proof (ext_top _ _ (Hext Ee)).
+    split; [lia|]. eapply pend_ext; eauto.
+  Qed.
+
+  (* ---------------------------------------------------------- stream pages *)
+  Lemma firstn_seq' : forall n s m, firstn n (seq s m) = seq s (Nat.min n m).
+  Proof.
+    induction n as [|n IH]; intros s m; [reflexivity|]. destruct m as [|m]; [reflexivity|].
+    cbn [seq firstn Nat.min]. f_equal. apply IH.
+  Qed.
+
+  Lemma firstn_changes : forall b p n, p <= top b ->
+    firstn n (changes b p (top b)) = changes b p (Nat.min (p + n) (top b)).
+  Proof.
+    intros b p n Hp. rewrite !changes_map by lia. rewrite firstn_map, firstn_seq'.
+    f_equal. f_equal. lia.
+  Qed.
+
+  Lemma changes_last : forall b p q, p < q -> q <= top b ->
+    exists r, rev (changes b p q) = (q, chg b q) :: r.
+  Proof.
+    intros b p q H1 H2. rewrite changes_map by lia.
+    replace (q - p) with (S (q - p - 1)) by lia. rewrite seq_S, map_app, rev_app_distr. cbn [map rev app].
+    replace (S p + (q - p - 1)) with q by lia. eauto.
+  Qed.
+
+  Lemma stream_page_know : forall b m p x limit pubs t e,
+    WF b -> 1 <= limit -> x = b_epoch b -> p <= top b -> Pend b m p ->
+    node_read_stream true b p (Some x) limit = SOk pubs t e ->
+    let roff := match rev pubs with (o, _) :: _ => o | [] => p end in
+    e = b_epoch b /\ p <= roff <= top b /\ Pend b (apply_pubs m (vis_pubs pubs)) roff.
+  Proof.
+    intros b m p x limit pubs t e HWF Hl Hx Hp HP H roff.
+    destruct (node_read_fixed b p (Some x) limit pubs t e HWF Hp Hl ltac:(unfold known; apply orb_true_r) H)
+      as [Ht [He [Hpubs _]]].
+    rewrite firstn_changes in Hpubs by lia.
+    set (q := Nat.min (p + limit) (top b)) in *.
+    assert (Hq : p <= q <= top b) by (unfold q; lia).
+    assert (Hroff : roff = q).
+    { unfold roff. destruct (Nat.eq_dec p q) as [E|N].
+      - rewrite Hpubs, <- E, changes_nil. reflexivity.
+      - destruct (changes_last b p q ltac:(lia) ltac:(lia)) as [r Hr]. rewrite Hpubs, Hr. reflexivity. }
+    split; [exact He|]. rewrite Hroff. split; [exact Hq|].
+    rewrite Hpubs. apply pend_apply'; [lia|lia|exact HP].
+  Qed.
+
+
+  (* ---------------------------------------------------------- requests *)
+  Notation handle := (handle true K vis tlimit).
+
+  Lemma filter_all : forall (A : Type) (f : A -> bool) l, (forall x, In x l -> f x = true) -> filter f l = l.
+  Proof.
+    intros A f l. induction l as [|a t IH]; intros H; [reflexivity|]. cbn.
+    rewrite (H a (or_introl eq_refl)). f_equal. apply IH. intros x Hx. apply H. right; auto.
+  Qed.
+
+  Lemma page_offsets_le : forall b cursor limit page next, 1 <= limit ->
+    read_state K b cursor limit = (page, next) ->
+    filter (fun e : key * nat * val => Nat.leb (snd (fst e)) (top b)) page = page.
+  Proof.
+    intros b cursor limit page next Hl Hr. apply filter_all. intros [[k o] v] Hin. cbn.
+    pose proof (read_state_spec K b cursor limit page next Hl Hr) as S0. cbv zeta in S0.
+    destruct S0 as [S1 _]. destruct (S1 _ _ _ Hin) as [_ [_ Hs]]. unfold state in Hs.
+    destruct (state_at_entry b (top b) k o v (le_n _) Hs) as [Ho _]. apply Nat.leb_le. lia.
+  Qed.
+
+  Lemma pendupto_empty : forall b F, PendUpTo b (fun _ => None) F 0.
+  Proof. intros b F k. split; [auto|]. intros _. split; [lia|auto]. Qed.
+
+  Definition fresh_phase (c : client) : Prop :=
+    c_phase c = CFresh \/ c_phase c = CTold EUnrecoverable \/ c_phase c = CTold EPermission.
+
+  (* the part of Know that does not depend on the phase *)
+  Definition Base (b : broker) (c : client) : Prop :=
+    WF b /\ keys_lt b /\ 1 <= c_limit c /\ (forall x, c_ep c = Some x -> x <= b_epoch b) /\
+    (forall k, vis k = false -> c_map c k = None).
+
+  Lemma know_base : forall b s l c, Know (mkSys b s l c) -> Base b c.
+  Proof. intros b s l c [A [B [C [D [E _]]]]]. unfold Base. cbn [y_b y_c] in *. tauto. Qed.
+
+  (* go live (or fail) from a position with pending knowledge *)
+  Lemma transition_know : forall bt b s l c since x isrec rf entries g1 g2 b' s' l' rep mE,
+    Know (mkSys b s l c) -> l_sub l = false -> wext b bt ->
+    Forall wok g1 -> Forall wok g2 -> x <= b_epoch b ->
+    (x = b_epoch bt -> since <= top bt /\ Pend bt mE since) ->
+    (forall k, vis k = false -> mE k = None) ->
+    (forall pubs latest, on_reply c (PLive entries pubs latest x rf) =
+       mkCl (apply_pubs mE pubs) CLive latest (Some x) (c_limit c) (c_recovered c ++ [rf])) ->
+    transition bt since (Some x) isrec rf entries g1 g2 = (b', s', l', rep) ->
+    Know (mkSys b' s' l' (on_reply c rep)).
+  Proof.
+    intros bt b s l c since x isrec rf entries g1 g2 b' s' l' rep mE HK Hl HX Hg1 Hg2 Hx HP Hinv Hrep H.
+    pose proof (know_base _ _ _ _ HK) as [HWF [HKL [Hlim [Hep Hcm]]]].
+    destruct (wext_facts _ _ HX HWF HKL) as [WFt [KLt [Emono Hext]]].
+    destruct (transition_spec vis tlimit bt since x isrec rf entries g1 g2 b' s' l' rep WFt
+                ltac:(intros E; apply HP; exact E) H) as [Hb' [Hs' [[er [Her Hld]]|[pubs [latest [Hr _]]]]]].
+    - subst rep. eapply know_err; eauto.
+      eapply wext_trans; [exact HX|]. rewrite Hb'. eapply wext_trans; apply wext_ws; auto.
+    - subst rep. rewrite Hrep.
+      destruct (live_know bt since x isrec rf entries g1 g2 b' s' l' pubs latest mE (c_limit c) (c_recovered c ++ [rf])
+                  WFt KLt Hg1 Hg2 Hlim ltac:(lia) HP Hinv H) as [HK' _].
+      exact HK'.
+  Qed.
+
+
+  (* first state request of a client that starts from scratch *)
+  Lemma req_first_know : forall b s l c g0 g1 g2 b' s' l' rep,
+    Know (mkSys b s l c) -> l_sub l = false -> fresh_phase c ->
+    Forall wok g0 -> Forall wok g1 -> Forall wok g2 ->
+    handle b s (RState None (c_limit c) 0 None) g0 g1 g2 = (b', s', l', rep) ->
+    Know (mkSys b' s' l' (on_reply c rep)).
+  Proof.
+    intros b s l c g0 g1 g2 b' s' l' rep HK Hl Hf H0 H1 H2 H.
+    pose proof (know_base _ _ _ _ HK) as [HWF [HKL [Hlim [Hep Hcm]]]].
+    unfold MapSub.handle in H. cbn [s_has negb Nat.eqb orb andb] in H.
+    destruct (read_state K b None (c_limit c)) as [page next] eqn:Er.
+    cbn [s_cap andb s_off s_epoch s_start s_startcap] in H.
+    set (mE := apply_entries (fun _ => None) (vis_entries page)).
+    assert (HmE_inv : forall k, vis k = false -> mE k = None)
+      by (intros k Hk; unfold mE; rewrite apply_entries_invis; auto).
+    assert (Hfresh_state : forall es cur off ep, on_reply c (PState es cur off ep) =
+              mkCl (apply_entries (fun _ => None) es) (match cur with Some k => CStatePages k | None => CStreaming end)
+                   off (Some ep) (c_limit c) (c_recovered c)).
+    { intros. unfold on_reply. destruct Hf as [E|[E|E]]; rewrite E; reflexivity. }
+    assert (Hfresh_live : forall es pubs latest x rf, on_reply c (PLive es pubs latest x rf) =
+              mkCl (apply_pubs (apply_entries (fun _ => None) es) pubs) CLive latest (Some x) (c_limit c) (c_recovered c ++ [rf])).
+    { intros. unfold on_reply. destruct Hf as [E|[E|E]]; rewrite E; reflexivity. }
+    pose proof (page_offsets_le b None (c_limit c) page next Hlim Er) as Hfilt.
+    pose proof (page_step b (fun _ => None) (top b) 0 page next (c_limit c) None Hlim (le_n _) HKL eq_refl Er
+                  (pendupto_empty b (top b))) as HPS.
+    cbv zeta in HPS. rewrite Hfilt in HPS. fold mE in HPS.
+    destruct next as [c0|].
+    - inversion H; subst b' s' l' rep; clear H. rewrite Hfresh_state. fold mE.
+      unfold Know; cbn [y_b y_c y_l y_s c_phase c_ep c_off c_map c_limit l_sub s_has s_cap s_off s_epoch].
+      split; [exact HWF|]. split; [exact HKL|]. split; [exact Hlim|].
+      split; [intros x Hx; inversion Hx; lia|]. split; [exact HmE_inv|]. split; [intros A; discriminate|].
+      split; [discriminate|]. intros _. split; [reflexivity|]. split; [reflexivity|]. split; [reflexivity|].
+      intros _. split; [lia|exact HPS].
+    - set (b0 := apply_ws b g0) in *.
+      assert (HX0 : wext b b0) by (apply wext_ws; auto).
+      destruct (wext_facts _ _ HX0 HWF HKL) as [WF0 [KL0 [Em0 Hext0]]].
+      assert (HP0 : b_epoch b = b_epoch b0 -> top b <= top b0 /\ Pend b0 mE (top b)).
+      { intros E. pose proof (Hext0 (eq_sym E)) as X. split; [apply (ext_top _ _ X)|]. eapply pend_ext; eauto. }
+      destruct (Nat.leb (top b0) (top b + c_limit c)).
+      + apply (transition_know b0 b s l c (top b) (b_epoch b) false false (vis_entries page) g1 g2 b' s' l' rep mE
+                 HK Hl HX0 H1 H2 (le_n _)).
+        * exact HP0.
+        * exact HmE_inv.
+        * intros pubs latest. rewrite Hfresh_live. reflexivity.
+        * exact H.
+      + inversion H; subst b' s' l' rep; clear H. rewrite Hfresh_state. fold mE.
+        unfold Know; cbn [y_b y_c y_l y_s c_phase c_ep c_off c_map c_limit l_sub].
+        split; [exact WF0|]. split; [exact KL0|]. split; [exact Hlim|].
+        split; [intros x Hx; inversion Hx; lia|]. split; [exact HmE_inv|]. split; [intros A; discriminate|].
+        split; [discriminate|]. intros E. inversion E as [E']. apply HP0. exact E'.
+  Qed.
+
+
+  (* a later state page *)
+  Lemma req_page_know : forall b s l c cur g0 g1 g2 b' s' l' rep,
+    Know (mkSys b s l c) -> l_sub l = false -> c_phase c = CStatePages cur ->
+    Forall wok g0 -> Forall wok g1 -> Forall wok g2 ->
+    handle b s (RState (Some cur) (c_limit c) (c_off c) (c_ep c)) g0 g1 g2 = (b', s', l', rep) ->
+    Know (mkSys b' s' l' (on_reply c rep)).
+  Proof.
+    intros b s l c cur g0 g1 g2 b' s' l' rep HK Hl Hph H0 H1 H2 H.
+    pose proof (know_base _ _ _ _ HK) as [HWF [HKL [Hlim [Hep Hcm]]]].
+    assert (HKc := HK). destruct HKc as [_ [_ [_ [_ [_ [_ Hp]]]]]]. cbn [y_b y_c y_l y_s] in Hp.
+    rewrite Hph in Hp. destruct Hp as [Hne Hp].
+    unfold MapSub.handle in H.
+    destruct (s_has s) eqn:Ehas; cbn [negb] in H.
+    2:{ inversion H; subst. eapply know_err; eauto. apply wext_refl. }
+    destruct (Hp eq_refl) as [Hcap [Hoff [Hsep Hpend]]].
+    destruct (c_ep c) as [x|] eqn:Ecep; [|congruence].
+    rewrite orb_true_r in H. cbn [andb] in H.
+    destruct (Nat.eqb x (b_epoch b)) eqn:Ex; cbn [negb] in H.
+    2:{ inversion H; subst. eapply know_err; eauto. apply wext_refl. }
+    apply Nat.eqb_eq in Ex. subst x.
+    destruct (Hpend eq_refl) as [Hoffle HPU].
+    destruct (read_state K b (Some cur) (c_limit c)) as [page next] eqn:Er.
+    rewrite Hcap in H. cbn [andb] in H. rewrite Hoff, Hsep in H.
+    set (mE := apply_entries (c_map c) (vis_entries (filter (fun e : key * nat * val => Nat.leb (snd (fst e)) (c_off c)) page))) in *.
+    assert (HmE_inv : forall k, vis k = false -> mE k = None)
+      by (intros k Hk; unfold mE; rewrite apply_entries_invis; auto).
+    assert (Hrs : forall es cu off ep, on_reply c (PState es cu off ep) =
+              mkCl (apply_entries (c_map c) es) (match cu with Some k => CStatePages k | None => CStreaming end)
+                   (c_off c) (c_ep c) (c_limit c) (c_recovered c)).
+    { intros. unfold on_reply. rewrite Hph. reflexivity. }
+    assert (Hrl : forall es pubs latest x rf, on_reply c (PLive es pubs latest x rf) =
+              mkCl (apply_pubs (apply_entries (c_map c) es) pubs) CLive latest (Some x) (c_limit c) (c_recovered c ++ [rf])).
+    { intros. unfold on_reply. rewrite Hph. reflexivity. }
+    pose proof (page_step b (c_map c) (c_off c) (S cur) page next (c_limit c) (Some cur) Hlim Hoffle HKL eq_refl Er HPU) as HPS.
+    cbv zeta in HPS. fold mE in HPS.
+    destruct next as [c0|].
+    - inversion H; subst b' s' l' rep; clear H. rewrite Hrs, Ecep. fold mE.
+      unfold Know; cbn [y_b y_c y_l y_s c_phase c_ep c_off c_map c_limit l_sub].
+      split; [exact HWF|]. split; [exact HKL|]. split; [exact Hlim|].
+      split; [exact Hep|]. split; [exact HmE_inv|]. split; [intros A; congruence|].
+      split; [congruence|]. intros _. split; [exact Hcap|]. split; [exact Hoff|]. split; [rewrite Hsep; auto|].
+      intros _. split; [exact Hoffle|exact HPS].
+    - set (b0 := apply_ws b g0) in *.
+      assert (HX0 : wext b b0) by (apply wext_ws; auto).
+      destruct (wext_facts _ _ HX0 HWF HKL) as [WF0 [KL0 [Em0 Hext0]]].
+      assert (HP0 : b_epoch b = b_epoch b0 -> c_off c <= top b0 /\ Pend b0 mE (c_off c)).
+      { intros E. pose proof (Hext0 (eq_sym E)) as X. pose proof (ext_top _ _ X). split; [lia|]. eapply pend_ext; eauto. }
+      destruct (Nat.leb (top b0) (c_off c + c_limit c)).
+      + apply (transition_know b0 b s l c (c_off c) (b_epoch b) false false
+                 (vis_entries (filter (fun e : key * nat * val => Nat.leb (snd (fst e)) (c_off c)) page))
+                 g1 g2 b' s' l' rep mE HK Hl HX0 H1 H2 (le_n _)).
+        * exact HP0.
+        * exact HmE_inv.
+        * intros pubs latest. rewrite Hrl. reflexivity.
+        * exact H.
+      + inversion H; subst b' s' l' rep; clear H. rewrite Hrs, Ecep. fold mE.
+        unfold Know; cbn [y_b y_c y_l y_s c_phase c_ep c_off c_map c_limit l_sub].
+        split; [exact WF0|]. split; [exact KL0|]. split; [exact Hlim|].
+        split; [intros x Hx; specialize (Hep x Hx); lia|]. split; [exact HmE_inv|]. split; [intros A; congruence|].
+        split; [congruence|]. intros E. inversion E as [E']. apply HP0. exact E'.
+  Qed.
+
+
+  Lemma node_read_epoch : forall fx b since x limit pubs t e,
+    node_read_stream fx b since (Some x) limit = SOk pubs t e -> x = b_epoch b.
+  Proof.
+    intros fx b since x limit pubs t e H. unfold node_read_stream in H.
+    destruct (broker_read_stream b since (Some x) limit) as [|ps t0 e0] eqn:Eb; [discriminate|].
+    destruct (broker_read_spec _ _ _ _ _ _ _ Eb) as [_ [_ [Hx _]]]. apply Hx; reflexivity.
+  Qed.
+
+  (* stream phase request *)
+  Lemma req_stream_know : forall b s l c g0 g1 g2 b' s' l' rep,
+    Know (mkSys b s l c) -> l_sub l = false -> c_phase c = CStreaming ->
+    Forall wok g0 -> Forall wok g1 -> Forall wok g2 ->
+    handle b s (RStream (c_off c) (c_ep c) (c_limit c)) g0 g1 g2 = (b', s', l', rep) ->
+    Know (mkSys b' s' l' (on_reply c rep)).
+  Proof.
+    intros b s l c g0 g1 g2 b' s' l' rep HK Hl Hph H0 H1 H2 H.
+    pose proof (know_base _ _ _ _ HK) as [HWF [HKL [Hlim [Hep Hcm]]]].
+    assert (HKc := HK). destruct HKc as [_ [_ [_ [_ [_ [_ Hp]]]]]]. cbn [y_b y_c y_l y_s] in Hp.
+    rewrite Hph in Hp. destruct Hp as [Hne Hp].
+    unfold MapSub.handle in H.
+    destruct (s_has s) eqn:Ehas; cbn [negb] in H.
+    2:{ inversion H; subst. eapply know_err; eauto. apply wext_refl. }
+    destruct (c_ep c) as [x|] eqn:Ecep; [|congruence].
+    assert (Hrl : forall pubs latest x0 rf, on_reply c (PLive [] pubs latest x0 rf) =
+              mkCl (apply_pubs (c_map c) pubs) CLive latest (Some x0) (c_limit c) (c_recovered c ++ [rf])).
+    { intros. unfold on_reply. rewrite Hph. reflexivity. }
+    assert (Hxle : x <= b_epoch b) by (apply Hep; reflexivity).
+    assert (HPx : x = b_epoch b -> c_off c <= top b /\ Pend b (c_map c) (c_off c)).
+    { intros E. apply Hp. congruence. }
+    destruct (match s_epoch s with Some c0 => negb (Nat.eqb x c0) | None => false end).
+    { inversion H; subst. eapply know_err; eauto. apply wext_refl. }
+    match type of H with (if ?cond then _ else _) = _ => destruct cond end.
+    - apply (transition_know b b s l c (c_off c) x true false [] g1 g2 b' s' l' rep (c_map c)
+               HK Hl (wext_refl b) H1 H2 Hxle HPx Hcm).
+      + intros pubs latest. rewrite Hrl. reflexivity.
+      + exact H.
+    - destruct (node_read_stream true b (c_off c) (Some x) (c_limit c)) as [|pubs t e] eqn:Er.
+      { inversion H; subst. eapply know_err; eauto. apply wext_refl. }
+      pose proof (node_read_epoch _ _ _ _ _ _ _ _ Er) as Ex.
+      destruct (HPx Ex) as [Hoffle HP].
+      destruct (stream_page_know b (c_map c) (c_off c) x (c_limit c) pubs t e HWF Hlim Ex Hoffle HP Er) as [He [Hroff HP']].
+      inversion H; subst b' s' l' rep; clear H.
+      unfold on_reply. cbn [c_map c_limit c_recovered].
+      unfold Know; cbn [y_b y_c y_l y_s c_phase c_ep c_off c_map c_limit l_sub].
+      split; [exact HWF|]. split; [exact HKL|]. split; [exact Hlim|].
+      split; [intros x0 Hx0; inversion Hx0; lia|].
+      split; [intros k Hk; rewrite apply_pubs_invis by auto; apply Hcm; auto|]. split; [intros A; congruence|].
+      split; [discriminate|]. intros _. split; [lia|exact HP'].
+  Qed.
+
+  (* recovery join *)
+  Lemma req_live_know : forall b s l c g0 g1 g2 b' s' l' rep,
+    Know (mkSys b s l c) -> l_sub l = false -> c_phase c = CTold EInsufficient ->
+    Forall wok g0 -> Forall wok g1 -> Forall wok g2 ->
+    handle b s (RLive (c_off c) (c_ep c)) g0 g1 g2 = (b', s', l', rep) ->
+    Know (mkSys b' s' l' (on_reply c rep)).
+  Proof.
+    intros b s l c g0 g1 g2 b' s' l' rep HK Hl Hph H0 H1 H2 H.
+    pose proof (know_base _ _ _ _ HK) as [HWF [HKL [Hlim [Hep Hcm]]]].
+    assert (HKc := HK). destruct HKc as [_ [_ [_ [_ [_ [_ Hp]]]]]]. cbn [y_b y_c y_l y_s] in Hp.
+    rewrite Hph in Hp. destruct Hp as [Hne Hp].
+    unfold MapSub.handle in H.
+    destruct (c_ep c) as [x|] eqn:Ecep; [|congruence].
+    assert (Hrl : forall pubs latest x0 rf, on_reply c (PLive [] pubs latest x0 rf) =
+              mkCl (apply_pubs (c_map c) pubs) CLive latest (Some x0) (c_limit c) (c_recovered c ++ [rf])).
+    { intros. unfold on_reply. rewrite Hph. reflexivity. }
+    assert (Hxle : x <= b_epoch b) by (apply Hep; reflexivity).
+    assert (HPx : x = b_epoch b -> c_off c <= top b /\ Pend b (c_map c) (c_off c)).
+    { intros E. apply Hp. congruence. }
+    destruct (match s_epoch s with Some c0 => s_has s && negb (Nat.eqb x c0) | None => false end).
+    { inversion H; subst. eapply know_err; eauto. apply wext_refl. }
+    apply (transition_know b b s l c (c_off c) x true true [] g1 g2 b' s' l' rep (c_map c)
+             HK Hl (wext_refl b) H1 H2 Hxle HPx Hcm).
+    - intros pubs latest. rewrite Hrl. reflexivity.
+    - exact H.
+  Qed.
+
+  (* ---------------------------------------------------------- every step *)
+  Lemma know_step : forall y ev, Know y -> evok ev -> Know (step y ev).
+  Proof.
+    intros y ev HK Hev. destruct ev as [w|g0 g1 g2| |].
+    - apply know_step_w; auto.
+    - destruct Hev as [H0 [H1 H2]]. destruct y as [b s l c].
+      unfold MapSub.step, step_out. cbn [y_b y_c y_l y_s].
+      destruct (next_request c) as [r|] eqn:Er; [|exact HK].
+      assert (Hl : l_sub l = false).
+      { destruct (l_sub l) eqn:El; auto. destruct HK as [_ [_ [_ [_ [_ [Hlive _]]]]]]. cbn in Hlive.
+        unfold next_request in Er. rewrite (Hlive El) in Er. discriminate. }
+      destruct (handle b s r g0 g1 g2) as [[[b' s'] l'] rep] eqn:Eh. cbn [fst].
+      unfold next_request in Er.
+      destruct (c_phase c) as [|cur| | |e] eqn:Eph.
+      + inversion Er; subst r. apply (req_first_know b s l c g0 g1 g2 b' s' l' rep HK Hl (or_introl Eph) H0 H1 H2 Eh).
+      + inversion Er; subst r. apply (req_page_know b s l c cur g0 g1 g2 b' s' l' rep HK Hl Eph H0 H1 H2 Eh).
+      + inversion Er; subst r. apply (req_stream_know b s l c g0 g1 g2 b' s' l' rep HK Hl Eph H0 H1 H2 Eh).
+      + discriminate.
+      + destruct e; inversion Er; subst r.
+        * apply (req_first_know b s l c g0 g1 g2 b' s' l' rep HK Hl (or_intror (or_introl Eph)) H0 H1 H2 Eh).
+        * apply (req_live_know b s l c g0 g1 g2 b' s' l' rep HK Hl Eph H0 H1 H2 Eh).
+        * apply (req_first_know b s l c g0 g1 g2 b' s' l' rep HK Hl (or_intror (or_intror Eph)) H0 H1 H2 Eh).
+    - destruct y as [b s l c]. unfold MapSub.step, step_out. cbn [y_b y_c y_l y_s].
+      destruct (l_sub l && negb (check_position b l)) eqn:E; [|exact HK].
+      apply andb_prop in E. destruct E as [El _]. cbn [fst]. eapply know_unsub; eauto.
+    - destruct y as [b s l c]. unfold MapSub.step, step_out. cbn [y_b y_c y_l y_s].
+      destruct (l_sub l) eqn:El; [|exact HK]. cbn [fst]. eapply know_unsub; eauto.
+  Qed.
+
+  Notation run := (run true K vis tlimit).
+
+  Lemma know_run : forall evs y, Know y -> Forall evok evs -> Know (run y evs).
+  Proof.
+    induction evs as [|ev t IH]; intros y HK HF; [exact HK|]. inversion HF; subst.
+    cbn. apply IH; auto. apply know_step; auto.
+  Qed.
+
+  Lemma know_init : forall size limit, 1 <= limit -> Know (init size limit).
+  Proof.
+    intros size limit Hl. unfold Know, init; cbn.
+    split; [unfold WF, top; cbn; lia|]. split; [intros c []|]. split; [exact Hl|].
+    split; [intros x Hx; discriminate|]. split; [auto|]. split; [intros A; discriminate|exact I].
+  Qed.
+
 End Inv.
